@@ -117,7 +117,10 @@ func (c *DCase) refFiles() ([]ref.File, error) {
 // each finding's reproduction (see ev.KnownActive).
 var excl ref.Excl
 
-const implBudget = 20_000_000
+// generated programs cost a few thousand units; a run that needs millions is a
+// runaway (e.g. an undetected cycle) and ends as outcome "budget" long before
+// the Go stack is exhausted
+const implBudget = 1_000_000
 
 type diffResult struct {
 	Verdict string // pass | fail | discard | excluded
@@ -314,3 +317,19 @@ func evThorough() bool { return ev.Thorough() }
 func flagSet(name, val string) { flag.Set(name, val) }
 
 func osReadFile(p string) ([]byte, error) { return os.ReadFile(p) }
+
+// inflight keeps the case being run on disk: a Go fatal error (stack exhaustion,
+// out of memory) cannot be recovered, so if the test process dies the driver
+// re-runs exactly this case in a fresh process. The returned func removes the file.
+func inflight(prop, check string, c interface{}, program string) func() {
+	dir := os.Getenv("VERIF_WORK")
+	if dir == "" {
+		return func() {}
+	}
+	path := fmt.Sprintf("%s/inflight-%d.json", dir, os.Getpid())
+	raw, _ := json.Marshal(c)
+	rp := ev.Replay{Property: prop, Check: check, Explain: "the test process died while running this case", Program: program, Case: raw}
+	data, _ := json.Marshal(rp)
+	os.WriteFile(path, data, 0o644)
+	return func() { os.Remove(path) }
+}
